@@ -190,4 +190,12 @@ CATALOGUE = [
     B('size-saturating', ['C17'], [(TR, "    pub fn is_empty(&self) -> bool {\n        self.len() == 0\n    }\n\n    pub fn clear(&mut self) {", "    pub fn is_empty(&self) -> bool {\n        self.size == 0\n    }\n\n    pub fn clear(&mut self) {")]),
     B('divide-bind-point-first', ['C13', 'C16', 'C04'], [(DS, "    let r = SweepEvent::new_rc(\n        se_l.contour_id,\n        inter,", "    let at = inter;\n    let r = SweepEvent::new_rc(\n        se_l.contour_id,\n        at,")]),
     B('in_result-early-noncontributing', ['C01', 'C14', 'C05', 'C06'], [(CF, "    match event.get_edge_type() {\n        EdgeType::Normal => match operation {", "    let edge_type = event.get_edge_type();\n    if edge_type == EdgeType::NonContributing {\n        return false;\n    }\n    match edge_type {\n        EdgeType::Normal => match operation {")]),
+    # ---- contour walk (C02 C04)
+    M('walk-push-initial', ['C04', 'C02'], [(CE, "            contour.points.push(result_events[pos as usize].point);\n\n            // pos advancement (B)", "            contour.points.push(initial);\n\n            // pos advancement (B)")], {'C04': ['G-sinks', 'T-walk'], 'C02': 'T-walk'}),
+    M('order-events-all-right-events', ['C02', 'C04'], [(CE, "|| (!event.is_left() && event.get_other_event().map(|o| o.is_in_result()).unwrap_or(false))", "|| (!event.is_left() && event.get_other_event().map(|o| o.is_in_result()).unwrap_or(true))")], {'C02': 'T-result-events'}),
+    M('other-pos-half-swap', ['C02', 'C04'], [(CE, "                event.set_other_pos(b);\n                other.set_other_pos(a);", "                event.set_other_pos(b);")], {'C02': 'T-other-pos'}),
+    M('mark-second-with-old-pos', ['C02'], [(CE, "            pos = result_events[pos as usize].get_other_pos();\n\n            mark_as_processed(&mut processed, &result_events, pos, contour_id);", "            let from = pos;\n            pos = result_events[pos as usize].get_other_pos();\n\n            mark_as_processed(&mut processed, &result_events, from, contour_id);")], {'C02': 'T-walk'}),
+    M('next-pos-returns-processed', ['C02'], [(CE, "        } else if !processed.contains(&pos) {\n            return Some(pos);", "        } else if processed.contains(&pos) {\n            return Some(pos);")], {'C02': 'T-next-pos'}),
+    M('context-from-other-end', ['C02'], [(CE, "let mut contour = Contour::initialize_from_context(&result_events[i as usize], &mut contours, contour_id);", "let mut contour = Contour::initialize_from_context(&result_events[result_events[i as usize].get_other_pos() as usize], &mut contours, contour_id);")], {'C02': 'T-walk'}),
+    B('walk-bind-event-first', ['C02', 'C04'], [(CE, "            contour.points.push(result_events[pos as usize].point);\n\n            // pos advancement (B)", "            let reached = &result_events[pos as usize];\n            contour.points.push(reached.point);\n\n            // pos advancement (B)")]),
 ]
